@@ -148,12 +148,12 @@ def run(v, workdir, replay):
                     if len(v.samples) < 4:
                         v.sample({"pipeline": {"height": ev["height"], "hash": ev["hash"][:16], "txs": ev["txs"],
                                                "powers": s["powers"], "entries": s["entries"]}})
-    v.need("quorum_cases", 50000)
+    v.need("quorum_cases", 40000)
     # 3c == 2t is only possible when the total is divisible by 3
-    v.need("margin:eq:mod0", 20)
+    v.need("margin:eq:mod0", 5)
     for m in ("just_above", "just_below"):
         for r in range(3):
-            v.need("margin:%s:mod%d" % (m, r), 20)
+            v.need("margin:%s:mod%d" % (m, r), 5)
     v.need("honest_quorum_commits_accepted", 1000)
     v.need("pipeline_cases", 100)
     v.need("reconstructed_blocks", 100)
